@@ -18,7 +18,7 @@ def run_scratch(scratch, name, d, pids, tier):
         r = sh(f'cd {scratch} && git init -q . && git apply {d}/patch.diff')
         if r.returncode:
             print('PATCH-DOES-NOT-APPLY', name, r.stdout); sys.exit(3)
-        env = dict(os.environ, PYTHONPATH=scratch, PYRATES_VERIF_OUT=os.path.join(scratch, 'verif-out'))
+        env = dict(os.environ, PYTHONPATH=scratch, VERIF_REPO=scratch, PYRATES_VERIF_OUT=os.path.join(scratch, 'verif-out'))
         for pid in pids:
             r = sh(f'{ROOT}/check {pid} --tier {tier}', cwd=ROOT, env=env)
             viol = [l for l in r.stdout.splitlines() if l.startswith('VIOLATION')]
